@@ -330,7 +330,10 @@ def run_task(prop, clause, tier, seed, shard, nshards):
 
 # properties whose thorough tier generates and shrinks only: in their modules the hill climber of the target phase was observed to spin inside Hypothesis
 # without calling the test function for more than 30 CPU-minutes per shard (C07, C09), or no thorough run with targeting has been completed yet (C18, C19)
-NO_TARGET = {'C07', 'C09', 'C18', 'C19'}
+NO_TARGET = {'C03', 'C07', 'C09', 'C15', 'C18', 'C19'}
+# the targeted search is opt-in (VERIF_TARGET=1): it completed for 14 properties at one or two seeds each, but stalled for four others, and a registered command
+# must terminate; by default the thorough tier generates and shrinks (more examples, larger sizes, more shards than the quick tier)
+TARGETING = os.environ.get('VERIF_TARGET', '0') == '1'
 
 
 def _hyp_settings(n, tier, stateful_steps=None, target=True):
@@ -353,7 +356,7 @@ def _run_hyp(prop, clause, tier, seed, shard, st, one, best):
     t_start = time.time()
 
     @hypothesis.seed(task_seed(seed, prop, clause.name, shard))
-    @_hyp_settings(n, tier, target=prop not in NO_TARGET)
+    @_hyp_settings(n, tier, target=TARGETING and prop not in NO_TARGET)
     @given(clause.strategy(tier))
     def test(case):
         shrinking = best['t_first'] is not None
@@ -365,7 +368,7 @@ def _run_hyp(prop, clause, tier, seed, shard, st, one, best):
         v = one(case, count=not shrinking)
         if shrinking:
             st.shrink_calls += 1
-        if v is None and tier == 'thorough' and not shrinking and prop not in NO_TARGET:
+        if v is None and tier == 'thorough' and not shrinking and TARGETING and prop not in NO_TARGET:
             from . import util as _U
             hypothesis.target(float(_U.APPROACH[0]), label='closest approach to a tolerance')
         if v is not None:
